@@ -301,6 +301,47 @@ def main():
                        f'{name}: recorded min/max differ from the moving average of the '
                        'true per-sample min/max', 'input': {'recipe': desc, 'signature': key}})
           break
+      # ---- C09 oracle: constants = their true per-tensor or per-channel min/max ----
+      QDIM = {'FULLY_CONNECTED': 0, 'CONV_2D': 0, 'DEPTHWISE_CONV_2D': 3, 'CONV_2D_TRANSPOSE': 0,
+              'EMBEDDING_LOOKUP': 0}
+      gsub = m.subgraphs[sgi]
+      for ti, t in enumerate(gsub.tensors):
+        name = og.tname(t)
+        if t.type != 0 or not og.is_const(m, t) or name not in res or not res[name] or \
+            (prev is not None and name in prev):
+          continue
+        raw = m.buffers[t.buffer].data
+        w = np.frombuffer(bytes(raw), dtype=np.float32).reshape([int(x) for x in t.shape])
+        got_min = np.asarray(res[name]['min'], dtype=np.float32)
+        got_max = np.asarray(res[name]['max'], dtype=np.float32)
+        if got_min.size <= 1:
+          okc = (w.size == 0 or (float(got_min.flatten()[0]) == float(np.min(w)) and
+                                 float(got_max.flatten()[0]) == float(np.max(w))))
+        else:
+          qd = None
+          for o in gsub.operators:
+            if ti in [int(x) for x in o.inputs]:
+              kname = tfu.TFL_OP_CODE_TO_NAME.get(m.operatorCodes[o.opcodeIndex].builtinCode)
+              kname = kname.value if kname else None
+              if kname == 'BATCH_MATMUL':
+                qd = w.ndim - 2 if o.builtinOptions.adjY else w.ndim - 1
+              elif kname in QDIM:
+                qd = QDIM[kname]
+              break
+          if qd is None:
+            okc = True      # per-channel statistics of an operand this oracle has no rule for
+          else:
+            axes = tuple(a for a in range(w.ndim) if a != qd)
+            okc = (got_min.size == w.shape[qd] and
+                   np.array_equal(got_min.flatten(), np.min(w, axis=axes).flatten()) and
+                   np.array_equal(got_max.flatten(), np.max(w, axis=axes).flatten()))
+        if not okc:
+          viol.append({'key': 'C09:constant-statistic-wrong', 'what':
+                       f'{name}: recorded min/max are not the true per-tensor / per-channel min/max '
+                       f'of the constant (shape {list(w.shape)}, recorded {got_min.size} values)',
+                       'input': {'recipe': desc, 'signature': key,
+                                 'model_hex': mb.hex() if len(mb) < 30000 else None}})
+          break
       # a later independent run on the same Quantizer (no previous result for
       # the first signature) must not be influenced by earlier calls
       if prev is None:
